@@ -244,10 +244,12 @@ func c04Sessions(c *Ctx) {
 		}
 		removed := map[string]bool{}
 		var pending [][2]string
+		var killers [][]string
+		pinned := map[string]bool{} // handlers whose Remover belongs to a sibling-removing handler (each Remover is used once)
 		var descs []string
 		events := 0
 		for step := 0; step < 25; step++ {
-			switch c.R.N(5) {
+			switch c.R.N(7) {
 			case 0, 1:
 				name := c.R.Pick("NOTICE", "notice", "Notice", "JOIN")
 				id := addH(name, c.R.P(1, 3))
@@ -255,7 +257,7 @@ func c04Sessions(c *Ctx) {
 			case 2:
 				var live []string
 				for _, r := range regs {
-					if !removed[r.id] {
+					if !removed[r.id] && !pinned[r.id] {
 						live = append(live, r.id)
 					}
 				}
@@ -288,6 +290,36 @@ func c04Sessions(c *Ctx) {
 				descs = append(descs, "add self-removing "+selfID+" (registers "+newID+")")
 				// mark: after next NOTICE event: selfID removed, newID live
 				pending = append(pending, [2]string{selfID, newID})
+			case 4:
+				// a handler that, during its own first invocation, removes handlers registered AFTER it under the same
+				// name: they were registered when the event was dispatched, so they still run for this event (once),
+				// and for no later one
+				killerID := fmt.Sprintf("h%d", nextID)
+				nextID++
+				nv := c.R.Range(1, 6)
+				var victims []string
+				var vrem []client.Remover
+				var once sync.Once
+				conn.HandleFunc("NOTICE", func(*client.Conn, *client.Line) {
+					inc(killerID)
+					once.Do(func() {
+						for _, r := range vrem {
+							r.Remove()
+						}
+					})
+				})
+				regs = append(regs, reg{killerID, "NOTICE", false})
+				pinned[killerID] = true
+				for v := 0; v < nv; v++ {
+					id := fmt.Sprintf("h%d", nextID)
+					nextID++
+					victims = append(victims, id)
+					pinned[id] = true
+					vrem = append(vrem, conn.HandleFunc("notice", func(*client.Conn, *client.Line) { inc(id) }))
+					regs = append(regs, reg{id, "notice", false})
+				}
+				killers = append(killers, victims)
+				descs = append(descs, fmt.Sprintf("add %s which removes its later siblings %v during the next event", killerID, victims))
 			default:
 				// an event: every live handler registered under its name (case-insensitively) runs once
 				events++
@@ -297,6 +329,13 @@ func c04Sessions(c *Ctx) {
 						expect[r.id]++
 					}
 				}
+				// sibling-removing handlers fire now: their victims have run for this event and are gone afterwards
+				for _, vs := range killers {
+					for _, v := range vs {
+						removed[v] = true
+					}
+				}
+				killers = nil
 				// self-removing handlers fire now
 				for _, p := range pending {
 					if !removed[p[0]] { // it runs now: removes itself, registers the other one
